@@ -847,4 +847,14 @@ def rule_flops(ctx):
     return r
 
 
-RULES = [rule_surv, rule_appear, rule_drop, rule_pre, rule_prelegs, rule_bestpair, rule_report, rule_merge, rule_flops]
+def rule_freshsub(ctx):
+    """Shared with C16-FRESH, reusable-optimizer instances (seed C18_12): the score a reusable optimizer stores — and
+    reports — is the cost of the path it returns only if the sub-optimizer that produced both starts from nothing: a
+    retained RandomGreedyOptimizer keeps the best flops *and path* of an earlier, cheaper contraction."""
+    from .c16 import rule_fresh as src
+
+    return C.reuse_rule(ctx, src, "C16-FRESH", "C18-FRESHSUB", "reported scores come from a sub-optimizer without history",
+                        lambda i: "Reusable" in i.construct or "reusable.py" in i.construct, 1)
+
+
+RULES = [rule_freshsub, rule_surv, rule_appear, rule_drop, rule_pre, rule_prelegs, rule_bestpair, rule_report, rule_merge, rule_flops]
